@@ -54,6 +54,10 @@ func main() {
 		macro = "macro3"
 	}
 	scen = append(scen, netsim.Scenario{Cfg: mk("4x1-"+macro+"-round-shapes", one, netsim.Config{Byz: []int{3}, NoByzMenu: true, Driver: macro}), Bound: 0})
+	// one correct validator, every arrival order of proposal / parts / +2/3 prevotes / +2/3 precommits of a decided block
+	for _, turn := range []int{2, 3} {
+		scen = append(scen, netsim.Scenario{Cfg: netsim.Config{Name: fmt.Sprintf("solo-turn%d-arrival-orders", turn), Powers: one, SoloTurn: turn, Driver: "orders", TargetHeight: 1, MaxRound: 8, MaxSteps: 1500}, Bound: 0})
+	}
 	// a fresh network started from the shipped genesis file, every validator on the REAL node stack
 	scen = append(scen, netsim.Scenario{Cfg: mk("shipped-testnet-genesis", []int64{1, 1, 1}, netsim.Config{NoByzMenu: true, TargetHeight: 2,
 		Full: &netsim.FullSpec{Genesis: loadShipped("cmd/cfg/genesis_testnet.yaml", true), Keys: []int{3, 4, 5}}}), Bound: 1})
@@ -89,9 +93,6 @@ func bindTicker(r *report.Run) {
 	rule, problems := consensus.VerifMeasureTicker(60 * time.Second)
 	for _, p := range problems {
 		kind := "ticker-loses-timeout"
-		if strings.Contains(p, "content") {
-			kind = "ticker-tock-content"
-		}
 		key := strings.SplitN(p, ":", 2)[0]
 		r.Violation("C04|part=ticker|oracle="+kind+"|case="+key, "the real timeoutTicker: "+p, map[string]interface{}{"part": "ticker", "problem": p})
 	}
